@@ -25,8 +25,15 @@ func UnaryTimeoutInterceptor(timeout time.Duration) grpc.UnaryServerInterceptor 
 		// 创建缓冲大小为1的通道以避免协程泄露
 		panicChan := make(chan interface{}, 1)
 		go func() {
+			// handler 正常返回才置为 true：go.mod 声明 go 1.19，panic(nil) 时 recover() 返回 nil，
+			// 单看 recover 的返回值这次 panic 就不会上报，调用方要一直等到超时才得到 DeadlineExceeded
+			completed := false
 			defer func() {
-				if p := recover(); p != nil {
+				p := recover()
+				if p == nil && !completed {
+					p = "panic(nil)"
+				}
+				if p != nil {
 					// 挂载调用堆栈以防在不同协程中丢失
 					panicChan <- fmt.Sprintf("%+v\n\n%s", p, strings.TrimSpace(string(debug.Stack())))
 				}
@@ -35,6 +42,7 @@ func UnaryTimeoutInterceptor(timeout time.Duration) grpc.UnaryServerInterceptor 
 			lock.Lock()
 			defer lock.Unlock()
 			resp, err = handler(ctx, req)
+			completed = true
 			close(done)
 		}()
 
